@@ -234,7 +234,16 @@ _cache = {}
 
 
 def load():
-    d, info = _extract.extract()
-    if d not in _cache:
-        _cache[d] = (Program(os.path.join(d, "jsvroots.program.json")), Items(os.path.join(d, "json_syntax.items.json")), info)
-    return _cache[d]
+    for attempt in (0, 1):
+        d, info = _extract.extract()
+        if d in _cache:
+            return _cache[d]
+        try:
+            _cache[d] = (Program(os.path.join(d, "jsvroots.program.json")), Items(os.path.join(d, "json_syntax.items.json")), info)
+            return _cache[d]
+        except (OSError, ValueError):
+            # the cache entry was pruned by a concurrent run while it was being read: drop what is left and extract again
+            import shutil
+            shutil.rmtree(d, ignore_errors=True)
+            if attempt:
+                raise
